@@ -15,8 +15,10 @@ import (
 	"github.com/named-data/ndnd/fw/face"
 	"github.com/named-data/ndnd/fw/table"
 	enc "github.com/named-data/ndnd/std/encoding"
+	"github.com/named-data/ndnd/std/ndn"
 	mgmt "github.com/named-data/ndnd/std/ndn/mgmt_2022"
 	spec "github.com/named-data/ndnd/std/ndn/spec_2022"
+	sec "github.com/named-data/ndnd/std/security"
 	"github.com/named-data/ndnd/std/utils"
 	"verif/mc/explore"
 	"verif/mc/report"
@@ -601,7 +603,21 @@ func (in *inst) checkDataset(ds, prefix string, filter *queryFilter, replies []r
 // ---- liveness of the faces ----
 
 func (in *inst) exercise(c *cmd, bad func(string, string, string)) {
-	probe := in.w.interest(nm("/c17/probe/of/the/face"))
+	// probe 1: a minimal Interest with a forwarder PIT token and a congestion mark: must be emitted
+	probe := in.w.interest(nm("/p"))
+	// probe 2: a Data packet whose outgoing LP header is as large as NDNLP allows (32-byte PIT
+	// token, which a downstream chooses, plus a congestion mark): must not crash the send path
+	// (whether a face with a tiny MTU can carry it is the face's business)
+	d, err := spec.Spec{}.MakeData(nm("/c17/probe/data"), &ndn.DataConfig{ContentType: utils.IdPtr(ndn.ContentTypeBlob), Freshness: utils.IdPtr(vtime.Second)},
+		enc.Wire{[]byte("forty bytes of content for the probe data")}, sec.NewSha256Signer())
+	if err != nil {
+		panic("HARNESS-BUG: probe data: " + err.Error())
+	}
+	dataWire := d.Wire.Join()
+	longTok := make([]byte, 32)
+	for i := range longTok {
+		longTok[i] = byte(0xa0 + i)
+	}
 	ids := []uint64{}
 	for _, l := range face.FaceTable.GetAll() {
 		ids = append(ids, l.FaceID())
@@ -614,6 +630,7 @@ func (in *inst) exercise(c *cmd, bad func(string, string, string)) {
 		if !ok || !mem {
 			continue
 		}
+		frag := map[bool]string{true: "on", false: "off"}[ls.Options().IsFragmentationEnabled]
 		t.VerifTake()
 		pkt, _, err := spec.ReadPacket(enc.NewBufferReader(probe))
 		if err != nil {
@@ -623,11 +640,22 @@ func (in *inst) exercise(c *cmd, bad func(string, string, string)) {
 		p := &defn.Pkt{Name: pkt.Interest.NameV, L3: pkt, Raw: probe, PitToken: tok, CongestionMark: utils.IdPtr(uint64(1)), IncomingFaceID: utils.IdPtr(fApp2)}
 		if msg, frame := guard(func() { face.VerifC17Send(ls, dispatch.OutPkt{Pkt: p, PitToken: tok, InFace: utils.IdPtr(fApp2)}) }); msg != "" {
 			bad("C17.alive", fmt.Sprintf("face unusable: panic @ %s", frame),
-				fmt.Sprintf("after %s, sending one %d-byte Interest through face %d (MTU %d) panics in the face's send path: %s at %s", c.label, len(probe), id, l.MTU(), msg, frame))
+				fmt.Sprintf("after %s, sending one %d-byte Interest through face %d (MTU %d, fragmentation %s) panics in the face's send path: %s at %s", c.label, len(probe), id, l.MTU(), frag, msg, frame))
 			continue
 		}
 		if frames := t.VerifTake(); len(frames) == 0 {
-			bad("C17.alive", "face unusable: nothing sent", fmt.Sprintf("after %s, face %d (MTU %d) emits no frame for a %d-byte Interest", c.label, id, l.MTU(), len(probe)))
+			bad("C17.alive", "face unusable: nothing sent", fmt.Sprintf("after %s, face %d (MTU %d, fragmentation %s) emits no frame for a %d-byte Interest", c.label, id, l.MTU(), frag, len(probe)))
+			continue
 		}
+		dp, _, err := spec.ReadPacket(enc.NewBufferReader(dataWire))
+		if err != nil || dp.Data == nil {
+			panic("HARNESS-BUG: probe data")
+		}
+		q := &defn.Pkt{Name: dp.Data.NameV, L3: dp, Raw: dataWire, PitToken: tok, CongestionMark: utils.IdPtr(uint64(1)), IncomingFaceID: utils.IdPtr(fApp2)}
+		if msg, frame := guard(func() { face.VerifC17Send(ls, dispatch.OutPkt{Pkt: q, PitToken: longTok, InFace: utils.IdPtr(fApp2)}) }); msg != "" {
+			bad("C17.alive", fmt.Sprintf("daemon crash on a packet with the largest LP header: panic @ %s", frame),
+				fmt.Sprintf("after %s (answered 200), sending one %d-byte Data with a 32-byte PIT token and a congestion mark through face %d (MTU %d, fragmentation %s) panics in the face's send path (the face's send goroutine has no recover: the daemon dies; the token is chosen by the downstream): %s at %s", c.label, len(dataWire), id, l.MTU(), frag, msg, frame))
+		}
+		t.VerifTake()
 	}
 }
